@@ -8,7 +8,7 @@ PY = "/venv/bin/python"
 BASE = ("Exploration: generated-input search (hypothesis, seeded by VERIF_SEED, sharded over 16 processes) plus complete "
         "enumeration of the finite sub-domains named below, against an oracle that shares no code with the repository; "
         "most clauses run a second time under `python -O`; thread clauses run under a deterministic scheduler that owns "
-        "the interleaving. Sensitivity was measured against 240 independently written breaking changes (seeded/) and "
+        "the interleaving. Sensitivity was measured against 278 independently written breaking changes (seeded/) and "
         "false-alarm resistance against 56 property-preserving rewrites (benign/). "
         "It does not establish absence of counter-examples outside what was explored. ")
 NOTE = ("Trusted base: CPython, hashlib/hmac (SHA-256/512, OpenSSL RIPEMD-160), unicodedata, hypothesis, and the reference "
